@@ -29,7 +29,8 @@ class Rule :
     def add(self, key, value):
         # if key in ('mtype', 'sender', 'interface', 'member', 'path',
         # 'destination'):
-        if key in ('mtype', 'interface', 'member', 'path', 'destination'):
+        if key in ('_messageType', 'interface', 'member', 'path',
+                   'destination'):
             self.simple.append((key, value))
         else:
             setattr(self, key, value)
@@ -89,7 +90,7 @@ class MessageRouter :
 
         # Simple
         if mtype:
-            r.add('_messageType', mtype)
+            r.add('_messageType', _mtypes.get(mtype, mtype))
         if sender:
             r.add('sender', sender)
         if interface:
